@@ -1187,6 +1187,9 @@ func (f *fileConfig) GetParentIdFieldNames() []string {
 }
 
 func (f *fileConfig) GetConfigMetadata() []ConfigMetadata {
+	f.mux.RLock()
+	defer f.mux.RUnlock()
+
 	ret := make([]ConfigMetadata, 2)
 	ret[0] = ConfigMetadata{
 		Type:     "config",
